@@ -22,6 +22,7 @@ EXPLANATION = (
     "broadcast_each iterates the snapshot returned by peers(); each iteration makes exactly one send_notify(path, body_for(..)) "
     "and one out.insert(peer.peer_id(), that call's result); the four public wrappers pass their path through unchanged. "
     "Not decided: the contents of the maps over arbitrary histories and linearizability checking (value-level)."
+    ' (alias-pairing, closed over forward inserts) for every insert into the forward alias map the returned previous owner is looked at and a retain on an alias_index list is reachable.'
 )
 ASSUMPTIONS = ["std::sync::Mutex gives mutual exclusion; HashMap/Vec have their std semantics"]
 
